@@ -86,6 +86,18 @@ NormIgmp(b, hl) ==
   IF t \in {18, 22, 23, 34} THEN <<t, 0>> \o Sub(b, 2, 6)      \* byte 1 is unused / reserved in reports and leave messages
   ELSE Sub(b, 0, hl)
 
+\* RFC 3376 4.1.1: max resp code < 128: the value itself (in 1/10 s), else floating point  (mant | 0x10) << (exp + 3)
+MaxResp10th(c) == IF c < 128 THEN c ELSE ((c % 16) + 16) * 2 ^ (((c \div 16) % 8) + 3)
+\* typed fields of an accepted IGMP header (kind k from IgmpKind): type number, the variant's fields, checksum
+IgmpTyped(b, k) ==
+  LET t == b[1]  grp == Sub(b, 4, 4)  cks == <<b[3] * 256 + b[4]>> IN
+  CASE k = "MembershipQuery" -> <<17, b[2]>> \o grp \o cks
+    [] k = "MembershipQueryWithSources" ->
+         <<17, b[2], MaxResp10th(b[2])>> \o grp \o <<b[9] \div 16, (b[9] \div 8) % 2, b[9] % 8, b[10], b[11] * 256 + b[12]>> \o cks
+    [] k \in {"MembershipReportV1", "MembershipReportV2", "LeaveGroup"} -> <<t>> \o grp \o cks
+    [] k = "MembershipReportV3" -> <<34, b[5], b[6], b[7] * 256 + b[8]>> \o cks
+    [] OTHER -> <<t, b[2]>> \o grp \o cks
+
 \* ---- ARP: Ethernet / IPv4 view ----
 ArpEthIpv4Errs(hw, proto, hl, pl) ==
   (IF hw # 1 THEN {"NonMatchingHwType"} ELSE {}) \cup (IF proto # 2048 THEN {"NonMatchingProtocolType"} ELSE {})
